@@ -380,8 +380,57 @@ def gen_strat_program(rng, opts=None):
             else:
                 args.append(("v", rng.choice(g.bound)))
         rules.append(dict(heads=[(h[0], args)], body=body))
+    # an aggregate BEFORE the first clause whose result is an argument of the second of two plain clauses: whether those two
+    # clauses may be evaluated in either order (simple join) depends on the variables bound before them — the aggregate's
+    # RESULT pattern, not its aggregated columns
+    agg_join = None
+    if rng.random() < opts.get("p_agg_then_join", 0.4) and nlev >= 2:
+        L = rng.randrange(1, nlev)
+        here = [r for r in rels if level[r[0]] == L]
+        lower = [r for r in rels if level[r[0]] < L]
+        upto = [r for r in rels if level[r[0]] <= L]
+        name, arity, _ = rng.choice(lower)
+        col = rng.randrange(arity)
+        kind = rng.choice(["max", "min", "sum", "max"])
+        aggit = ("agg", "m0", kind, ["v0"], name, [("b", "v0") if i == col else ("w",) for i in range(arity)])
+        a = rng.choice(upto)
+        b = rng.choice([r for r in upto if r[1] >= 1])
+        avars = ["a%d" % i for i in range(a[1])]
+        bargs = [("v", rng.choice(avars)) if rng.random() < 0.7 else ("v", "b%d" % i) for i in range(b[1])]
+        bargs[rng.randrange(b[1])] = ("v", "m0")
+        body = [aggit, ("clause", a[0], [("v", x) for x in avars], []), ("clause", b[0], bargs, [])]
+        scope = avars + [t[1] for t in bargs]
+        h = rng.choice(here)
+        rules.append(dict(heads=[(h[0], [("v", rng.choice(scope)) for _ in range(h[1])])], body=body))
+        agg_join = dict(first=a[0], second=b[0], aggregated=name, col=col, kind=kind)
     rng.shuffle(rules)
-    return dict(rels=rels, rules=rules, shape="stratified")
+    return dict(rels=rels, rules=rules, shape="stratified", agg_join=agg_join)
+
+
+def agg_join_inputs(rng, p):
+    """inputs aimed at the rule of the agg-then-join shape: the two joined relations very unequal in size, both ways (the run-time
+    choice of the join order), the second one holding rows with and without the aggregate's value"""
+    info = p.get("agg_join")
+    out = []
+    if not info:
+        return out
+    ar = {n: a for n, a, _ in p["rels"]}
+    for big_first in (True, False):
+        inp, _ = gen_input(rng, p["rels"], style=rng.choice(["small", "mixed"]))
+        agg_rows = inp.get(info["aggregated"]) or [tuple(rng.choice(DOM) for _ in range(ar[info["aggregated"]]))]
+        inp[info["aggregated"]] = agg_rows
+        vals = [t[info["col"]] for t in agg_rows]
+        m = {"max": max(vals), "min": min(vals), "sum": sum(vals)}[info["kind"]]
+        n1, n2 = (rng.choice([9, 12, 16]), rng.choice([2, 3])) if big_first else (rng.choice([1, 2, 3]), rng.choice([9, 12]))
+        if info["first"] != info["second"]:
+            def rows(rel, n):
+                ts = [tuple(rng.choice(DOM + [m]) for _ in range(ar[rel])) for _ in range(n)]
+                return list(dict.fromkeys(ts + (inp.get(rel, []) if rel == info["aggregated"] else [])))
+            for rel, n in ((info["first"], n1), (info["second"], n2)):
+                if rel != info["aggregated"]:
+                    inp[rel] = rows(rel, n)
+        out.append(inp)
+    return out
 
 
 def aggregated_rels(p):
